@@ -439,7 +439,7 @@ impl World {
     // ------------------------------------------------------------------ probe / message log
 
     /// Poll the probe once; returns the diffs of the item it delivered, if any.
-    fn poll_probe(&mut self) -> R<Option<Vec<MDiff>>> {
+    fn poll_probe(&mut self, after_oob: bool) -> R<Option<Vec<MDiff>>> {
         let Some((stream, replica)) = self.probe.as_mut() else { return Ok(None) };
         let flag = Flag::new();
         let waker = flag_waker(&flag);
@@ -457,7 +457,9 @@ impl World {
                 let mds: Vec<MDiff> = item.iter().map(mdiff).collect();
                 for d in &mds {
                     if let Err(e) = apply_checked(d, replica) {
-                        return self.ck.fail(&[C05, C06, C07], format!("diff not applicable to the replica of an up-to-date batched subscriber: {e}"));
+                        // after an out-of-range call nobody may have been notified of anything: C17's too
+                        let props: &[Prop] = if after_oob { &[C05, C06, C07, C17] } else { &[C05, C06, C07] };
+                        return self.ck.fail(props, format!("diff not applicable to the replica of an up-to-date batched subscriber: {e}"));
                     }
                 }
                 Ok(Some(mds))
@@ -471,7 +473,7 @@ impl World {
     fn after_source_op(&mut self, direct_msgs: Option<usize>, committed: bool, predicted_k: usize, what: &str) -> R {
         let had_oob = std::mem::take(&mut self.txn_had_oob);
         if self.probe.is_some() {
-            let item = self.poll_probe()?;
+            let item = self.poll_probe(had_oob)?;
             let replica_ok = self.probe.as_ref().map(|p| p.1 == self.model).unwrap_or(true);
             match direct_msgs {
                 Some(n) => {
@@ -600,6 +602,9 @@ impl World {
                 let mut vop = vop.clone();
                 self.avoid_k2(&mut vop, len, None);
                 let r = self.resolve(&vop, len);
+                if matches!(r, RVOp::OobInsert(..) | RVOp::OobSet(..) | RVOp::OobRemove(_) | RVOp::OobEntry(_)) {
+                    self.txn_had_oob = true;
+                }
                 let eff = exec_rvop(&mut self.ck, self.vec.as_mut().unwrap(), &mut self.model, &r, false)?;
                 self.after_source_op(Some(eff), false, 0, &format!("{:?}", r))
             }
